@@ -106,6 +106,42 @@ func H_C18_restartAfterCsvMatured_NoPanic() {
 	sc.vApply(stRestart)
 	zzverif.Reach("c18.recover_returned")
 	zzverif.Assert(zzverif.LocksHeld() == 0, "C18.recover_releases_all_locks")
+	// ... and the recovered swap still takes events: the csv notification (on the watcher's goroutine) and
+	// a message of the peer are handled to the end, nobody waits for a lock recovery left behind
+	zzverif.Concurrently(func() { sc.svc.OnCsvPassed(sc.id) })
+	zzverif.Assert(zzverif.Blocked() == 0, "C18.recovered_swap_handles_csv_notification")
+}
+
+// H_C18_recoveredWaitingSwapTakesEvents_NoPanic: every waiting state a swap can be restarted in: after the
+// recovery (whose action registers watchers / notifiers and returns NoOp) the events that end the wait are
+// still handled - the handler goroutine is not left blocked on the swap's lock.
+func H_C18_recoveredWaitingSwapTakesEvents_NoPanic() {
+	type ws struct {
+		role int
+		st   StateType
+		stim int
+	}
+	all := []ws{
+		{rInSender, State_SwapInSender_AwaitClaimPayment, stMsgCancel},
+		{rOutReceiver, State_SwapOutReceiver_AwaitClaimInvoicePayment, stPaidClaim},
+		{rOutSender, State_SwapOutSender_AwaitTxBroadcastedMessage, stMsgCancel},
+		{rInReceiver, State_SwapInReceiver_AwaitTxBroadcastedMessage, stMsgCancel},
+		{rOutSender, State_SwapOutSender_AwaitTxConfirmation, stTxConfirmErr},
+		{rInReceiver, State_SwapInReceiver_AwaitTxConfirmation, stMsgCancel},
+	}
+	c := all[zzverif.Choice("case", len(all))]
+	sc := vBuild(c.role, c.st, false, 7)
+	w := sc.env.w
+	w.maxFaults = 0
+	w.maxPayAttempts = 1
+	w.narrow = sc.sm.Data
+	sc.env.store.recs[sc.id] = vSnapshot(sc.sm)
+	sc.vRestart()
+	zzverif.Reach("c18.waiting_swap_recovered")
+	zzverif.Assert(zzverif.LocksHeld() == 0, "C18.recovery_of_waiting_swap_releases_all_locks")
+	h := sc.vC19Handler(c.stim)
+	zzverif.Concurrently(h)
+	zzverif.Assert(zzverif.Blocked() == 0, "C18.recovered_waiting_swap_takes_events")
 }
 
 // H_C18_lockOrder: a peer message handler and a block notification never take the swap mutex and the
